@@ -18,8 +18,8 @@ RULE = ('cases = (type, syntax, kind in options/snippets/variables, key in exist
 ASSUMPTIONS = ['layer order: defaults < type defaults < syntax defaults < global[type] < global[syntax] < call config',
                'emmet.config.SYNTAX_CONFIG is looked up at call time (if the attribute disappears only layers 3-5 are varied and the evidence says so)',
                'the caller-visible `text` key of the call config is judged by C08, not here']
-FLOORS = {'quick': {'config': 4000, 'expand': 2500, 'unknown-syntax': 4, 'immutability': 4000},
-          'thorough': {'config': 4000, 'expand': 2500, 'unknown-syntax': 4, 'immutability': 4000}}
+FLOORS = {'quick': {'config': 6000, 'expand': 2500, 'unknown-syntax': 4, 'immutability': 4000},
+          'thorough': {'config': 6000, 'expand': 2500, 'unknown-syntax': 4, 'immutability': 4000}}
 REQUIRED_MONITORS = ['oracle:layer-order', 'oracle:expand-layer', 'oracle:bystanders', 'oracle:builtin-digest', 'oracle:caller-digest']
 
 SYN = {'markup': ['html', 'xml', 'xsl', 'jsx', 'js', 'pug', 'slim', 'haml', 'vue', 'svelte', 'xhtml', 'nosuch', 'my-syntax'],
@@ -28,12 +28,18 @@ SYN = {'markup': ['html', 'xml', 'xsl', 'jsx', 'js', 'pug', 'slim', 'haml', 'vue
 KEYS = {
     'markup': [('options', 'output.indent', ['<1>', '<2>', '<3>', '<4>', '<5>']),
                ('options', 'vmon.sentinel', ['L1', 'L2', 'L3', 'L4', 'L5']),
+               ('options', 'markup.attributes', [{'class': 'c%d' % i, 'k%d' % i: 'v'} for i in range(1, 6)]),
+               ('options', 'inlineElements', [['a', 'l%d' % i] for i in range(1, 6)]),
+               ('options', 'output.selfClosingStyle', ['xml', 'xhtml', 'html', 'xml', 'xhtml']),
                ('snippets', 'vsnip', ['x-la', 'x-lb', 'x-lc', 'x-ld', 'x-le']),
                ('snippets', 'bq', ['x-la', 'x-lb', 'x-lc', 'x-ld', 'x-le']),
                ('variables', 'vvar', ['V1', 'V2', 'V3', 'V4', 'V5']),
                ('variables', 'lang', ['V1', 'V2', 'V3', 'V4', 'V5'])],
     'stylesheet': [('options', 'stylesheet.between', ['<1>', '<2>', '<3>', '<4>', '<5>']),
                    ('options', 'vmon.sentinel', ['L1', 'L2', 'L3', 'L4', 'L5']),
+                   ('options', 'stylesheet.unitAliases', [{'e': 'u%d' % i, 'k%d' % i: 'v'} for i in range(1, 6)]),
+                   ('options', 'stylesheet.unitless', [['z-index', 'l%d' % i] for i in range(1, 6)]),
+                   ('options', 'stylesheet.after', ['<1>', '<2>', '<3>', '<4>', '<5>']),
                    ('snippets', 'vsnip', ['vprop-la', 'vprop-lb', 'vprop-lc', 'vprop-ld', 'vprop-le']),
                    ('snippets', 'bd', ['vprop-la', 'vprop-lb', 'vprop-lc', 'vprop-ld', 'vprop-le']),
                    ('variables', 'vvar', ['V1', 'V2', 'V3', 'V4', 'V5']),
